@@ -379,6 +379,18 @@ func (rw *rewriter) rewriteStmt(s ast.Stmt) []ast.Stmt {
 			return append(append([]ast.Stmt{pointStmt()}, pre...), goCall)
 		}
 	case *ast.DeferStmt:
+		if id, ok := st.Call.Fun.(*ast.Ident); ok && rw.sched && id.Name == "close" && len(st.Call.Args) == 1 {
+			if _, isB := rw.info.Uses[id].(*types.Builtin); isB {
+				// defer close(ch): the operand is evaluated now, the scheduling point belongs to the deferred close
+				rw.rewriteExpr(st.Call.Args[0])
+				tmp := ast.NewIdent(fmt.Sprintf("zzdc%d", int(st.Pos())))
+				pre := &ast.AssignStmt{Lhs: []ast.Expr{tmp}, Tok: token.DEFINE, Rhs: []ast.Expr{st.Call.Args[0]}}
+				inner := &ast.CallExpr{Fun: ast.NewIdent("close"), Args: []ast.Expr{schedCall("ZZSchedPV", tmp)}}
+				st.Call = &ast.CallExpr{Fun: &ast.FuncLit{Type: &ast.FuncType{Params: &ast.FieldList{}}, Body: &ast.BlockStmt{List: []ast.Stmt{&ast.ExprStmt{X: inner}}}}}
+				rw.changed = true
+				return []ast.Stmt{pre, st}
+			}
+		}
 		if fl, ok := st.Call.Fun.(*ast.FuncLit); ok {
 			rw.rewriteBlock(fl.Body)
 			for _, a := range st.Call.Args {
